@@ -51,7 +51,7 @@ func newCryptoWorld(w *kernel.World, plan *kernel.Plan, rng *kernel.RNG, prop st
 		return nil, err
 	}
 	pw.DB.AddTable("t1", Col{"id", TInt4}, Col{"plain", TText}, Col{"c1", TBytea}, Col{"c2", TBytea})
-	svc, err := translator.NewTranslatorService(&translator.TranslatorData{Keystorage: pw.KS.KS, PoisonRecordCallbacks: pw.Poison})
+	svc, err := translator.NewTranslatorService(&translator.TranslatorData{Keystorage: pw.KS.KS, PoisonRecordCallbacks: pw.Poison, Tokenizer: pw.Tokenizer})
 	if err != nil {
 		return nil, err
 	}
@@ -305,7 +305,7 @@ func (C02) ID() string { return "C02" }
 func (C02) Explore(x *kernel.Explorer, seed uint64) {
 	r := kernel.NewRNG(seed, 0xc02)
 	for i := 0; i < 3 && !x.Expired(); i++ {
-		plan := &kernel.Plan{Prop: "C02", Seed: kernel.Mix(seed, uint64(i)), Swarm: map[string]int64{"mysql": int64(r.Intn(3) / 2), "depeof": int64(r.Intn(2)), "wyield": int64(r.Intn(2)), "chunk": int64(r.Intn(4))}}
+		plan := &kernel.Plan{Prop: "C02", Seed: kernel.Mix(seed, uint64(i)), Swarm: map[string]int64{"tls": int64(r.Intn(2)), "mysql": int64(r.Intn(3) / 2), "depeof": int64(r.Intn(2)), "wyield": int64(r.Intn(2)), "chunk": int64(r.Intn(4))}}
 		n := 2 + r.Intn(6)
 		for j := 0; j < n; j++ {
 			plan.Ops = append(plan.Ops, kernel.Op{ID: j + 1, Kind: "cross", A: []int64{
@@ -371,6 +371,9 @@ func (C02) Run(t *testing.T, plan *kernel.Plan, keepLog bool) *kernel.Result {
 			}
 			w.EndOp(0, "ok")
 			w.State(fmt.Sprintf("%s rotA=%d rotB=%d", entry, op.Arg(1, 0), op.Arg(2, 0)))
+		}
+		if plan.Sw("tls") == 1 {
+			c02TLS(w, cw)
 		}
 		// different clients always get different keys
 		seen := map[string]string{}
